@@ -41,7 +41,18 @@ class Tr:
         return (isinstance(e, ast.Call) and isinstance(e.func, ast.Name) and e.func.id == "float" and len(e.args) == 1
                 and isinstance(e.args[0], ast.Constant) and e.args[0].value in ("inf", "Inf", "infinity"))
 
+    offline = False            # True while translating the offline visitor (node / args / self.ast accessors allowed)
+
     def expr(self, e):
+        if self.offline:
+            t = src(e)
+            special = {"args[0]": "$length", "self.ast.var_object_dict[node.var]": "$var", "node.field": "$field",
+                       "node.operator.value": "$operator", "node.operator": "$operator", "node.val": "$val"}
+            if t in special:
+                return "(.loc %s)" % q(special[t])
+            r = self.list_expr(e)
+            if r is not None:
+                return r
         if self.is_inf(e):
             return ".pinf"
         if isinstance(e, ast.UnaryOp) and isinstance(e.op, ast.USub) and self.is_inf(e.operand):
@@ -102,6 +113,67 @@ class Tr:
                 return "(.newDeque %s)" % self.expr(e.keywords[0].value)
         return ".unsupported " + q(src(e))
 
+    def list_expr(self, e):
+        """Expression forms over lists of floats (offline visitor); None if `e` is not one of them."""
+        if isinstance(e, ast.Call) and isinstance(e.func, ast.Name) and not e.keywords:
+            f, a = e.func.id, e.args
+            if f == "len" and len(a) == 1:
+                return "(.len %s)" % self.expr(a[0])
+            if f in ("min", "max") and len(a) == 1:
+                return "(.agg %s %s)" % ("true" if f == "max" else "false", self.expr(a[0]))
+            if f == "reversed" and len(a) == 1:
+                return "(.reversed %s)" % self.expr(a[0])
+            if f == "list" and len(a) == 1 and isinstance(a[0], ast.Call) and src(a[0].func) == "map" and len(a[0].args) == 2 \
+                    and isinstance(a[0].args[0], ast.Name) and a[0].args[0].id in ("min", "max") \
+                    and isinstance(a[0].args[1], ast.Call) and src(a[0].args[1].func) == "zip" and len(a[0].args[1].args) == 2:
+                z = a[0].args[1].args
+                return "(.compZip (.bin .%s (.loc \"$l\") (.loc \"$r\")) \"$l\" \"$r\" %s %s)" % (a[0].args[0].id, self.expr(z[0]), self.expr(z[1]))
+        if isinstance(e, ast.Subscript) and isinstance(e.slice, ast.Slice):
+            sl = e.slice
+            if sl.step is not None:
+                return ".unsupported " + q(src(e))
+            lo = "(.int 0)" if sl.lower is None else self.expr(sl.lower)
+            hi = ".noneLit" if sl.upper is None else self.expr(sl.upper)
+            return "(.slice %s %s %s)" % (self.expr(e.value), lo, hi)
+        if isinstance(e, ast.BinOp) and isinstance(e.op, ast.Mult) and isinstance(e.left, ast.List) and len(e.left.elts) == 1:
+            return "(.rep %s %s)" % (self.expr(e.left.elts[0]), self.expr(e.right))
+        if isinstance(e, ast.ListComp) and len(e.generators) == 1 and not e.generators[0].ifs and not e.generators[0].is_async:
+            g = e.generators[0]
+            it = g.iter
+            if isinstance(it, ast.Call) and isinstance(it.func, ast.Name) and it.func.id == "range" and not it.keywords \
+                    and 1 <= len(it.args) <= 2 and isinstance(g.target, ast.Name):
+                lo, hi = ("(.int 0)", self.expr(it.args[0])) if len(it.args) == 1 else (self.expr(it.args[0]), self.expr(it.args[1]))
+                return "(.compRange %s %s %s %s)" % (self.expr(e.elt), q(g.target.id), lo, hi)
+            if isinstance(it, ast.Call) and isinstance(it.func, ast.Name) and it.func.id == "zip" and len(it.args) == 2 \
+                    and isinstance(g.target, ast.Tuple) and len(g.target.elts) == 2 and all(isinstance(x, ast.Name) for x in g.target.elts):
+                return "(.compZip %s %s %s %s %s)" % (self.expr(e.elt), q(g.target.elts[0].id), q(g.target.elts[1].id),
+                                                       self.expr(it.args[0]), self.expr(it.args[1]))
+            if isinstance(g.target, ast.Name):
+                return "(.compList %s %s %s)" % (self.expr(e.elt), q(g.target.id), self.expr(it))
+        return None
+
+    def list_stmt(self, s, depth):
+        """Statement forms on local lists / deques (offline visitor); None if `s` is not one of them."""
+        if isinstance(s, ast.Expr) and isinstance(s.value, ast.Call) and isinstance(s.value.func, ast.Attribute) \
+                and isinstance(s.value.func.value, ast.Name) and s.value.func.value.id != "self" and not s.value.keywords:
+            x, m, a = s.value.func.value.id, s.value.func.attr, s.value.args
+            if m == "append" and len(a) == 1:
+                return "(.appendLoc %s %s)" % (q(x), self.expr(a[0]))
+            if m == "reverse" and not a:
+                return "(.reverseLoc %s)" % q(x)
+            if m == "insert" and len(a) == 2:
+                return "(.insertLoc %s %s %s)" % (q(x), self.expr(a[0]), self.expr(a[1]))
+        if isinstance(s, ast.AugAssign) and isinstance(s.op, ast.Add) and isinstance(s.target, ast.Name):
+            return "(.setLoc %s (.bin .add (.loc %s) %s))" % (q(s.target.id), q(s.target.id), self.expr(s.value))
+        if isinstance(s, ast.For) and not s.orelse and isinstance(s.target, ast.Name):
+            it = s.iter
+            if isinstance(it, ast.Call) and isinstance(it.func, ast.Name) and it.func.id == "range" and not it.keywords:
+                if len(it.args) == 3 and src(it.args[2]) == "-1":
+                    return "(.forDown %s %s %s %s)" % (q(s.target.id), self.expr(it.args[0]), self.expr(it.args[1]), self.block(s.body, depth))
+                return None
+            return "(.forIn %s %s %s)" % (q(s.target.id), self.expr(it), self.block(s.body, depth))
+        return None
+
     # ---------------------------------------------------------------- statements
     def seq(self, items):
         items = [i for i in items if i != ".skip"]
@@ -116,6 +188,10 @@ class Tr:
         return self.seq([self.stmt(s, depth) for s in stmts])
 
     def stmt(self, s, depth):
+        if self.offline:
+            r = self.list_stmt(s, depth)
+            if r is not None:
+                return r
         if isinstance(s, ast.Pass):
             return ".skip"
         if isinstance(s, ast.Assign) and len(s.targets) == 1:
@@ -151,7 +227,10 @@ class Tr:
             lo, hi = ("(.int 0)", self.expr(a[0])) if len(a) == 1 else (self.expr(a[0]), self.expr(a[1]))
             return "(.for_ %s %s %s %s)" % (q(s.target.id), lo, hi, self.block(s.body, depth))
         if isinstance(s, ast.If):
-            return "(.ite %s %s %s)" % (self.expr(s.test), self.block(s.body, depth), self.block(s.orelse, depth))
+            test = self.expr(s.test)
+            if not isinstance(s.test, (ast.Compare, ast.BoolOp)) and not (isinstance(s.test, ast.UnaryOp) and isinstance(s.test.op, ast.Not)):
+                test = "(.un .truthy %s)" % test          # `if x:` on a value that is not a Boolean expression
+            return "(.ite %s %s %s)" % (test, self.block(s.body, depth), self.block(s.orelse, depth))
         if isinstance(s, ast.Raise) and isinstance(s.exc, ast.Call) and isinstance(s.exc.func, ast.Name):
             return "(.raise .rtamt)" if s.exc.func.id == "RTAMTException" else "(.raise .other)"
         return ".unsupported " + q(src(s))
@@ -210,7 +289,74 @@ def generate():
     return "\n".join(lines) + "\n"
 
 
+OFF_FILE = "rtamt/semantics/stl/discrete_time/offline/ast_visitor.py"
+OUT_OFF = os.path.join(os.path.dirname(HERE), "lean", "Rtamt", "Py", "GeneratedOff.lean")
+
+
+def offline_method(tr, m):
+    """visitX(self, node, *args, **kwargs): the statements that fetch the children's results and the interval become the
+    parameters of the translated method."""
+    a = m.args
+    if [x.arg for x in a.args] != ["self", "node"]:
+        return None
+    kids, interval, body = [], False, []
+    for st in m.body:
+        t = src(st)
+        if isinstance(st, ast.Assign) and len(st.targets) == 1 and isinstance(st.targets[0], ast.Name) \
+                and isinstance(st.value, ast.Call) and src(st.value.func) == "self.visit" and len(st.value.args) >= 1 \
+                and isinstance(st.value.args[0], ast.Subscript) and src(st.value.args[0].value) == "node.children" \
+                and isinstance(st.value.args[0].slice, ast.Constant) and st.value.args[0].slice.value == len(kids) and not body:
+            kids.append(st.targets[0].id)
+            continue
+        if t.replace(" ", "") == "begin,end=self.time_unit_transformer(node)" and not body and not interval:
+            interval = True
+            continue
+        body.append(st)
+    ret = "none"
+    if body and isinstance(body[-1], ast.Return):
+        r = body.pop()
+        ret = "none" if r.value is None else "(some %s)" % tr.expr(r.value)
+    if any(isinstance(x, ast.Return) for st in body for x in ast.walk(st)):
+        btxt = ".unsupported " + q("return inside " + m.name)
+    else:
+        btxt = tr.block(body, 0)
+    return "{ name := %s, kids := [%s], interval := %s, body := %s, ret := %s }" % (
+        q(m.name), ", ".join(q(k) for k in kids), "true" if interval else "false", btxt, ret)
+
+
+def generate_offline():
+    tree = ast.parse(open(os.path.join(REPO, OFF_FILE)).read())
+    cls = [n for n in tree.body if isinstance(n, ast.ClassDef)][0]
+    tr = Tr(cls)
+    tr.offline = True
+    lines = ["/- GENERATED by harness/py2lean.py from %s of /repo on every run - do not edit. -/" % OFF_FILE,
+             "import Rtamt.Py.Off", "", "namespace Rtamt.Py.Gen.Off", "open Rtamt Rtamt.Py", ""]
+    names = []
+    for m in cls.body:
+        if isinstance(m, ast.FunctionDef) and m.name.startswith("visit") and m.name != "visit":
+            t = offline_method(tr, m)
+            if t is None:
+                continue
+            lines.append("def %s : OffMethod :=\n  %s" % (m.name, t))
+            lines.append("")
+            names.append(m.name)
+    lines.append("/-- the methods the class `%s` defines, by name -/" % cls.name)
+    lines.append("def methods : List (String × OffMethod) := [%s]" % ", ".join("(%s, %s)" % (q(n), n) for n in names))
+    lines.append("")
+    lines.append("end Rtamt.Py.Gen.Off")
+    return "\n".join(lines) + "\n"
+
+
+def write_if_changed(path, txt):
+    old = open(path).read() if os.path.exists(path) else None
+    if txt != old:
+        tmp = path + ".tmp%d" % os.getpid()
+        open(tmp, "w").write(txt)
+        os.replace(tmp, path)
+
+
 def main():
+    write_if_changed(OUT_OFF, generate_offline())
     txt = generate()
     old = open(OUT).read() if os.path.exists(OUT) else None
     if txt != old:
